@@ -111,7 +111,32 @@ func newKeyring(seed int) *keyring {
 		}
 		kr.ec[kind] = m
 	}
+	// hist.go: objects with up to three parties of one kind need three right keys and one that is nobody's.
+	// Drawn from a generator of their own, after everything else: the keys above stay what they were.
+	kr.rsa["k3"], kr.rsa["k4"] = parseRSA(rsaPEM3), parseRSA(rsaPEM4)
+	rng2 := rand.New(rand.NewSource(int64(seed)*104729 + 1600))
+	for _, n := range []int{16, 24, 32, 48, 64} {
+		for _, v := range []string{"k3", "k4"} {
+			b := make([]byte, n)
+			rng2.Read(b)
+			kr.oct[n][v] = b
+		}
+	}
 	return kr
+}
+
+// pool returns four different keys of a kind, rotated by salt (EC: the leading-zero keys take every position in turn).
+func (kr *keyring) pool(kind string, salt int) (keys [4]interface{}, names [4]string) {
+	vs := [4]string{"k1", "k2", "k3", "k4"}
+	switch kind {
+	case "P-256", "P-384", "P-521":
+		vs = [4]string{"lzx", "lzy", "k1", "k2"}
+	}
+	for i := range vs {
+		names[i] = vs[(i+salt)%4]
+		keys[i] = kr.private(kind, names[i])
+	}
+	return
 }
 
 // private returns the private (or symmetric) key of a kind and variant.
